@@ -326,6 +326,23 @@ def run(rep, tier, seed):
         rep.sample({"op": e["op"], "src": recipes[e["id"]], "outcome": e["outcome"]})
     for e in events:
         rep.note_case(repr(recipes[e["id"]]), nontrivial=e["op"] == "buildtree" or len(set(e["result"])) > 1)
+    # combinations whose leaves carry DATA-PATH arguments, evaluated with source data (through Rule.test over a fan-out
+    # of the document's children): every operator hands the source data down to both operands - judged by Trace_Rule
+    from harness.props import ruledrv, c17
+    revents, rrecipes = [], {}
+    for _ in range(400 if tier == "quick" else 8000):
+        doc = gen.document(rng, depth=rng.choice([2, 3]), strish=0.75)
+        fan = {"rk": "map" if isinstance(doc, dict) else "list", "key": None, "index": None, "value": None, "cond": None, "label": None}
+        rr = {"rparts": [fan], "cond": c17.cross_tree(rng, doc, rng.choice([1, 2, 2, 3])), "cast": None}
+        try:
+            ev = ruledrv.ruletest_event(len(revents) + 1, rr, doc, "raw")
+        except (Unencodable, TypeError, ValueError):
+            continue
+        revents.append(ev)
+        rrecipes[ev["id"]] = {"op": "ruletest", "rule": ruledrv.lit_rule(rr), "doc": to_lit(doc), "entry": "raw"}
+        rep.note_case(repr((rr, doc)), nontrivial=ev["tested"])
+    ruledrv.judge(rep, revents, rrecipes, lambda m, e: {"clause": m["clause"], "leg": "B-source", "op": e["op"], "outcome": e["outcome"]})
+    rep.extra["source_data_events"] = len(revents)
     rep.rule = ("leg C: every behaviour of the heap machine (Combine over a 5-leaf pool incl. key-, index-kind and null; "
                 f"exhaustive depth 2: {nex}; simulated depth with MkPart/MkMol/PartFilter: {len(uniq)} distinct) replayed "
                 "step by step into real objects (identity structure, projection of every live object, write set, filter "
@@ -351,6 +368,9 @@ def replay(rep, case):
         rep.sample({"replayed": [h["step"] for h in c["behaviour"]["hist"]]})
         return
     r = c["recipe"]
+    if r.get("op") == "ruletest":
+        from harness.props import ruledrv
+        return ruledrv.replay(rep, case)
     t = from_lit(r["tree"])
     events = []
     out, obj = c01.outcome_of(lambda: gen.build_tree(t))
